@@ -471,6 +471,68 @@ func runC07(c *Ctx) {
 		c.verdict(n >= 2, "module | functions that take a write buffer from a sync.Pool", "-", fmt.Sprintf("%d function(s) examined", n), fmt.Sprintf("found %d function(s) using a pooled *bytes.Buffer, the pinned tree has 2 (both WriteHeaders)", n))
 	})
 
+	c.rule("C07.O5", "nothing in memory outlives a transaction that failed to commit: in package headerfs a function literal handed to walletdb.Update (it may run to completion and the commit still fail) changes, besides the database, only variables of the function that created it; it never stores into a field of the store / index object or of anything else reachable from outside (a tip cached there would survive the rollback of the index and WriteHeaders' compensating truncation: the store reports a batch that was never stored until it is reopened)", func() {
+		upd := c.funcObj("github.com/btcsuite/btcwallet/walletdb", "Update")
+		n := 0
+		var bad, sites []string
+		for _, fn := range c.P.Funcs {
+			if pkgOf(fn) == nil || !strings.HasSuffix(pkgOf(fn).Path(), "/headerfs") || fn.Parent() != nil {
+				continue
+			}
+			for _, cl := range closuresPassedTo(fn, upd) {
+				n++
+				sites = append(sites, c.nm(cl))
+				for _, f := range ir.WithClosures(cl) {
+					ir.Instrs(f, func(in ssa.Instruction) {
+						st, ok := in.(*ssa.Store)
+						if !ok {
+							return
+						}
+						// a field / element reached through a pointer that the closure
+						// did not make itself (a field of a captured local struct
+						// variable is still the creator's local)
+						outside := false
+						var base ssa.Value = st.Addr
+						for {
+							switch a := base.(type) {
+							case *ssa.FieldAddr:
+								base = a.X
+								continue
+							case *ssa.IndexAddr:
+								base = a.X
+								continue
+							}
+							break
+						}
+						switch y := base.(type) {
+						case *ssa.Global:
+							outside = true
+						case *ssa.UnOp:
+							// *p: where does p come from
+							if base != st.Addr {
+								outside = ir.DerivesFrom(y.X, func(x ssa.Value) bool {
+									switch x.(type) {
+									case *ssa.FreeVar, *ssa.Global:
+										return true
+									}
+									return false
+								})
+							}
+						case *ssa.FreeVar:
+							// the captured variable itself (or a field of it): a local of the creator
+							_ = y
+						}
+						if outside {
+							bad = append(bad, c.nm(f)+" at "+c.at(in))
+						}
+					})
+				}
+			}
+		}
+		sort.Strings(bad)
+		c.verdict(len(bad) == 0 && n >= 2, "headerfs | transaction closures change only the database and their creator's locals", "", fmt.Sprintf("%d function literal(s) handed to walletdb.Update", n), "memory reachable from outside is written inside a walletdb.Update closure (kept even if the commit fails): "+join(bad)+fmt.Sprintf(" (%d closures)", n), sites...)
+	})
+
 	c.rule("C07.O3", "a read delivers what was asked for or fails: every function of package headerfs that lets the file fill a buffer (File.ReadAt: readRaw and readHeadersFromFile in the pinned tree) reports success only when ReadAt reported no error at all (a short read at the end of the file is an error, not a shorter result), and never narrows the buffer it had filled", func() {
 		n := 0
 		for _, fn := range c.P.Funcs {
